@@ -86,6 +86,8 @@ func Families() []Named {
 		{"lookback-path", Parse("S", abc[:4], "S: TA A TB | TC A TD | TC TA TB ; A: TA")},
 		{"list-of-lists", Parse("S", abc[:3], "S: S TA L | L ; L: L TB | ; ")},
 		{"palindrome-ish", Parse("S", abc[:2], "S: TA S TA | TB S TB | TA | TB")},
+		{"literal-percent", &Spec{Start: "S", Tokens: []TokDecl{{Name: "TA"}}, Rules: []Rule{{L: "S", R: []string{"S", "'%'", "TA"}}, {L: "S", R: []string{"TA"}}}}},
+		{"literal-dquote", &Spec{Start: "S", Tokens: []TokDecl{{Name: "TA"}}, Rules: []Rule{{L: "S", R: []string{"S", "'\"'", "TA"}}, {L: "S", R: []string{"TA"}}}}},
 		{"nonassoc-cmp", Parse("E", []string{"TA"}, "E: E '<' E | E '+' E | TA").WithPrec("nonassoc '<'", "left '+'")},
 	}
 }
